@@ -234,6 +234,10 @@ package ckks
 //@   dyn op1 float64
 //@   case len(op0.Value) == 2 && len(opOut.Value) == 3
 //@   case len(op0.Value) == 2 && len(opOut.Value) == 2
+//@   requires len(op0.Value[0].Coeffs) >= 1 && len(opOut.Value[0].Coeffs) >= 1
+//@   let lin = old(len(op0.Value[0].Coeffs))
+//@   let lout = old(len(opOut.Value[0].Coeffs))
+//@   ensures implies(isnil(err), len(opOut.Value[0].Coeffs) == ite(lin <= lout, lin, lout) && len(opOut.Value[1].Coeffs) == ite(lin <= lout, lin, lout))
 //@   ensures implies(isnil(err) && old(len(opOut.Value)) == 3, len(opOut.Value) == 3)
 //@   ensures implies(isnil(err) && old(len(opOut.Value)) == 2, len(opOut.Value) == 2)
 
